@@ -869,6 +869,7 @@ class DSDLCodeGenerator(CodeGenerator):
         template = self._env.get_template(template_name)
         template_gen = template.generate(T=input_type)
         if not is_dryrun:
+            _reset_line_post_processors(self._post_processors)
             self._generate_code(output_path, template, template_gen, allow_overwrite)
         return output_path
 
@@ -971,6 +972,7 @@ class SupportGenerator(CodeGenerator):
         template = self._env.get_template(template_path.name)
         template_gen = template.generate()
         if not is_dryrun:
+            _reset_line_post_processors(self._post_processors)
             self._generate_code(output_path, template, template_gen, allow_overwrite)
         return output_path
 
@@ -989,6 +991,7 @@ class SupportGenerator(CodeGenerator):
             if len(line_pps) == 0:
                 shutil.copy(str(resource), str(target))
             else:
+                _reset_line_post_processors(line_pps)
                 self._copy_header_using_line_pps(resource, target, line_pps)
             for file_pp in file_pps:
                 target = file_pp(target)
@@ -1009,6 +1012,15 @@ class SupportGenerator(CodeGenerator):
 # +---------------------------------------------------------------------------+
 # | JINJA : helpers
 # +---------------------------------------------------------------------------+
+
+
+def _reset_line_post_processors(post_processors: typing.Optional[typing.Iterable[typing.Any]]) -> None:
+    """
+    Returns all line post-processors to their initial state. Invoked at the start of each generated file.
+    """
+    for post_processor in post_processors or []:
+        if isinstance(post_processor, nunavut._postprocessors.LinePostProcessor):
+            post_processor.reset()
 
 
 def _hold_back_split_line_endings(parts: typing.Iterable[str]) -> typing.Generator[str, None, None]:
